@@ -18,6 +18,8 @@ try:
     rc,o=sh(f"git apply {patch}"); assert rc==0, "patch does not apply: "+o
     rc,o=sh("go build ./..."); meta["ran"].append({"cmd":"go build ./... (with change)","rc":rc}); assert rc==0, o
     tp=" ".join("./"+p+"/" for p in pkgs if not p.startswith("bfe_tls"))
+    if os.environ.get("SEED_TEST_CMD"):
+        tp=os.environ["SEED_TEST_CMD"]
     rc,o=sh(f"timeout 1200 go test -vet=off -count=1 {tp}"); meta["ran"].append({"cmd":f"go test -vet=off -count=1 {tp} (with change, demo absent)","rc":rc,"tail":o[-400:]}); assert rc==0, "existing tests fail with change: "+o
     for d in demos: shutil.copy(os.path.join(out,d), os.path.join(wt,demodir,d))
     rc1,o1=sh(f"timeout 900 go test -vet=off -count=1 -run 'Seed' ./{demodir}/"); meta["ran"].append({"cmd":f"go test -run Seed ./{demodir}/ (with change)","rc":rc1,"tail":o1[-600:]})
